@@ -127,7 +127,31 @@ class Pair(Generic[T, S]):
 UserId = NewType('UserId', int)
 Label = NewType('Label', str)
 
+class Node:
+    """Linked fixture: attribute chains of differing values (node.parent.parent...), for nested IsAttr validators."""
+
+    def __init__(self, parent=None, v=0):
+        self.parent = parent
+        self.v = v
+
+    def __repr__(self):
+        return 'Node(depth=%d, v=%r)' % (self.depth(), self.v)
+
+    def depth(self):
+        d, n = 1, self.parent
+        while n is not None:
+            d, n = d + 1, n.parent
+        return d
+
+    def __eq__(self, o):
+        return type(o) is Node and o.v == self.v and o.parent == self.parent
+
+    def __hash__(self):
+        return hash(('Node', self.v, self.depth()))
+
+
 CLASSES = {
+    'Node': Node,
     'int': int, 'str': str, 'float': float, 'bytes': bytes, 'bool': bool,
     'complex': complex, 'list': list, 'dict': dict, 'tuple': tuple, 'set': set,
     'frozenset': frozenset, 'object': object, 'type': type,
@@ -406,6 +430,11 @@ def build_obj(o, env=None):
         c = env.cls(o['c'])
         if c is NoWeak:
             return NoWeak(o.get('v', 0))
+        if c is Node:
+            n = None
+            for j in range(o.get('d', 1)):
+                n = Node(n, o.get('v', 0) + j)     # the innermost (root) node first; values differ along the chain
+            return n
         return c()
     if k == 'clsobj':
         return env.cls(o['c'])
@@ -618,8 +647,8 @@ def must_reject(h, x, tower=False, env=None):
     if k == 'seq':
         if not isinstance(x, _origin_cls(h)):
             return True
-        if isinstance(x, (str, bytes)):
-            return False        # unspecified zone
+        # (a str is a Sequence of one-character strs, a bytes object a Sequence of ints: "every item violates" applies to
+        # them like to any other sequence; recursion ends with the hint, since the items are judged against the child hint)
         return len(x) > 0 and all(must_reject(h['a'][0], i, tower, env) for i in x)
     if k == 'set':
         if not isinstance(x, _origin_cls(h)):
@@ -729,7 +758,7 @@ def some_path(h, x, tower=False, env=None):
 
 
 # ------------------------------------------------------------------ generators
-LEAF_CLASSES = ['int', 'str', 'float', 'bytes', 'bool', 'complex', 'A', 'B', 'C', 'NoWeak', 'Named']
+LEAF_CLASSES = ['int', 'str', 'float', 'bytes', 'bool', 'complex', 'A', 'B', 'C', 'NoWeak', 'Named', 'Node']
 HASHABLE_LEAVES = ['int', 'str', 'float', 'bytes', 'bool', 'A', 'B', 'C', 'NoWeak']
 
 LEAF_OBJS = [
@@ -739,6 +768,8 @@ LEAF_OBJS = [
     {'o': 'none'}, {'o': 'bytes', 'v': 'b'}, {'o': 'complex', 'v': [1, 2]},
     {'o': 'inst', 'c': 'A'}, {'o': 'inst', 'c': 'B'}, {'o': 'inst', 'c': 'C'},
     {'o': 'inst', 'c': 'NoWeak', 'v': 3}, {'o': 'inst', 'c': 'Named'},
+    {'o': 'inst', 'c': 'Node', 'd': 1, 'v': 0}, {'o': 'inst', 'c': 'Node', 'd': 2, 'v': 1}, {'o': 'inst', 'c': 'Node', 'd': 3, 'v': 0},
+    {'o': 'inst', 'c': 'Node', 'd': 4, 'v': 2},
     {'o': 'clsobj', 'c': 'A'}, {'o': 'clsobj', 'c': 'B'}, {'o': 'clsobj', 'c': 'int'}, {'o': 'clsobj', 'c': 'bool'},
     {'o': 'clsobj', 'c': 'float'}, {'o': 'clsobj', 'c': 'complex'}, {'o': 'clsobj', 'c': 'str'},
 ]
@@ -752,6 +783,27 @@ VALIDATORS = [
     {'v': 'and', 'a': [{'v': 'is', 'f': 'pos'}, {'v': 'is', 'f': 'even'}]},
     {'v': 'or', 'a': [{'v': 'iseq', 'x': 0}, {'v': 'is', 'f': 'pos'}]},
 ]
+
+_NODE_LEAF_VALIDATORS = [
+    {'v': 'isinst', 'c': ['Node']}, {'v': 'iseq', 'x': None}, {'v': 'is', 'f': 'truthy'}, {'v': 'isinst', 'c': ['int']},
+    {'v': 'is', 'f': 'always'}, {'v': 'not', 'a': [{'v': 'iseq', 'x': None}]}, {'v': 'iseq', 'x': 0}, {'v': 'iseq', 'x': 1},
+]
+
+
+def gen_node_validator(rng, depth=3):
+    """Validator expressions over the attribute chains of Node: nested IsAttr on the *same* attribute name, compounds with
+    operands before and after the nested one."""
+    r = rng.random()
+    if depth <= 0 or r < 0.25:
+        return rng.choice(_NODE_LEAF_VALIDATORS)
+    if r < 0.55:
+        return {'v': 'isattr', 'n': rng.choice(['parent', 'parent', 'parent', 'v']), 'a': gen_node_validator(rng, depth - 1)}
+    if r < 0.78:
+        return {'v': 'and', 'a': [gen_node_validator(rng, depth - 1), gen_node_validator(rng, depth - 1)]}
+    if r < 0.94:
+        return {'v': 'or', 'a': [gen_node_validator(rng, depth - 1), gen_node_validator(rng, depth - 1)]}
+    return {'v': 'not', 'a': [gen_node_validator(rng, depth - 1)]}
+
 
 LITERAL_POOL = [0, 1, 2, -1, 'a', 'b', '', True, False, None, {'b': 'x'}, 1000, -300, 2 ** 40, 'ab', 'hello world', {'b': 'xyz'}]
 
@@ -834,6 +886,8 @@ def gen_hint(rng, depth=3, hashable=False, families=None, leafy=0.3):
     if f == 'newtype':
         return {'k': 'newtype', 'n': rng.choice(list(NEWTYPES))}
     if f == 'ann':
+        if not hashable and rng.random() < 0.3:
+            return {'k': 'ann', 'a': [{'k': 'cls', 'n': 'Node'}], 'v': [gen_node_validator(rng, rng.choice([2, 3, 3, 4]))]}
         base = gen_hint(rng, d, hashable, families)
         if base['k'] in ('ref',):
             base = _gen_leaf(rng, hashable)
@@ -1183,6 +1237,11 @@ def _gen_violating_at(rng, h, where, maxlen, tower, env):
         n = rng.randint(1, maxlen)
         child = h['a'][0]
         items = [gen_violating(rng, child, max(1, maxlen - 1), tower, env)[0] for _ in range(n)]
+        if k == 'seq' and SEQ_ORIGINS[h['o']][1] is cabc.Sequence and rng.random() < 0.2:
+            # a string or bytes object as the sequence: its items (one-character strs / ints) all violate the item hint
+            for cand in ({'o': 'str', 'v': 'xyz'}, {'o': 'bytes', 'v': 'bcd'}):
+                if must_reject(h, build_obj(cand, env), tower, env):
+                    return cand
         base = gen_conforming(rng, h, 0, env)        # right container kind, empty
         kind = base['o']
         if kind in ('iterator', 'generator'):
